@@ -180,6 +180,10 @@ func (bkt *Bucket) open(bucketID int, home string) (err error) {
 	if err != nil {
 		return err
 	}
+	if maxdata > bkt.hints.maxChunkID {
+		// hints loaded from files do not pass through setItem
+		bkt.hints.maxChunkID = maxdata
+	}
 	htrees, ids := bkt.getAllIndex(HTREE_SUFFIX)
 	for i := len(htrees) - 1; i >= 0; i-- {
 		treepath := htrees[i]
